@@ -1,7 +1,9 @@
 (** C18 — ed-style patch scripts are applied exactly.
     Only statements; every proof is [exact <lemma>]. *)
+From Coq Require Import String.
 From Verif Require Import Lib.Base Lib.Dec Lib.PySlice Gen.PyChars
-  Pdiff.Ed Pdiff.EdSpec Pdiff.EdProofs Pdiff.EdInst Pdiff.EdGrammar.
+  Pdiff.Ed Pdiff.EdSpec Pdiff.EdProofs Pdiff.EdInst Pdiff.EdGrammar
+  Pdiff.EdCheck Pdiff.EdCheckProofs.
 
 (** The model, for bytes ([true]) or str ([false]) scripts. *)
 Definition apply_script_of (bytes : bool) :=
@@ -84,6 +86,44 @@ Theorem C18_grammar_recognises_rendered :
     spec_parse (render wide cs) = Some cs.
 Proof. exact spec_parse_render. Qed.
 
+(** 5. The bridge between the correspondence and the property: on EVERY case
+       of the check (Pdiff/EdCheck.v) on which the implementation behaved like
+       the model ([agree]), the property as [holds] judges it on the
+       observation is true.  No side condition: [agree] has two conjuncts,
+       [agree_obs] (the model reproduces both observed results) and
+       [agree_expect] (when the harness derived the script from a target file,
+       the MODEL produces that target — the expectation [holds] also compares
+       the observation with).  [agree_obs c = true -> holds c = agree_expect c]
+       ([agree_holds_iff_judged]): the second conjunct is exactly what is needed.
+       The proof rests on two facts about the model for EVERY concrete syntax the
+       grammar [spec_parse] accepts or rejects: [model_spec_some] (accepted and in
+       range => ed's result) and [model_spec_none] (rejected, no non-ASCII
+       digit => ValueError). *)
+Theorem C18_agree_implies_holds :
+  forall c, agree c = true -> holds c = true.
+Proof. exact agree_implies_holds_full. Qed.
+
+(** the two facts, for every script (they extend theorems 1 and 3 from rendered scripts to all scripts) *)
+Theorem C18_any_accepted_script_matches_ed :
+  forall bytes old script cs b,
+    spec_parse script = Some cs -> ed_run old cs = Some b ->
+    model_run bytes old script = Ok b.
+Proof. exact model_spec_some. Qed.
+
+(** Non-vacuity: a case with an expectation on which everything is true, and the
+    expectation conjunct matters (same run, wrong expectation: the observations agree
+    with the model, [agree] and [holds] are both false). *)
+Example C18_agree_implies_holds_nonvacuous :
+  let nl s := String.append s "\00000a"%string in
+  let old := [nl "a"; nl "b"; nl "c"]%string in
+  let script := [nl "2,3c"; nl "x"; nl "."; nl "1d"]%string in
+  let out := Ok [nl "x"]%string in
+  let good := mk false old script (Some [nl "x"]%string) out out in
+  let wrong := mk false old script (Some [nl "y"]%string) out out in
+  (agree good = true /\ holds good = true)
+  /\ (agree_obs wrong = true /\ agree wrong = false /\ holds wrong = false).
+Proof. vm_compute. repeat split. Qed.
+
 (** Non-vacuity: a concrete alignment with an insertion at the top, a change, a
     deletion of the last line and adjacent hunks meets the hypotheses. *)
 Example C18_nonvacuous :
@@ -104,3 +144,5 @@ Print Assumptions C18_bad_command_rejected_str.
 Print Assumptions C18_append_with_range_rejected.
 Print Assumptions C18_unterminated_block_rejected.
 Print Assumptions C18_grammar_recognises_rendered.
+Print Assumptions C18_agree_implies_holds.
+Print Assumptions C18_any_accepted_script_matches_ed.
